@@ -5,12 +5,29 @@ use crate::expr::{expression_pos_p, ws_expr_pos_p};
 use crate::input::StringView;
 use crate::pc_specific::{WithPos, keyword};
 use crate::tokens::minus_sign;
-use crate::{ExpressionPos, ExpressionPosTrait, Keyword, ParserError, UnaryOperator};
+use crate::{Expression, ExpressionPos, ExpressionPosTrait, Keyword, ParserError, UnaryOperator};
 
 pub(super) fn parser() -> impl Parser<StringView, Output = ExpressionPos, Error = ParserError> {
-    unary_minus()
+    negative_number_literal().or(unary_minus()
         .or(unary_not())
-        .map(|(Positioned { element: op, pos }, expr)| expr.apply_unary_priority_order(op, pos))
+        .map(|(Positioned { element: op, pos }, expr)| expr.apply_unary_priority_order(op, pos)))
+}
+
+/// A minus sign directly followed by a number is a negative number literal
+/// (if anything else follows the minus sign, this parser backs off and `unary_minus` takes over).
+fn negative_number_literal() -> impl Parser<StringView, Output = ExpressionPos, Error = ParserError>
+{
+    minus_sign()
+        .and_keep_right(
+            super::single_or_double_literal::parser()
+                .map(|Positioned { element, .. }| match element {
+                    Expression::SingleLiteral(f) => Expression::SingleLiteral(-f),
+                    Expression::DoubleLiteral(f) => Expression::DoubleLiteral(-f),
+                    _ => element,
+                })
+                .or(super::integer_or_long_literal::negative_dec_parser()),
+        )
+        .with_pos()
 }
 
 fn unary_minus()
